@@ -456,7 +456,8 @@ class C05(SpecProp):
     pid = "C05"
     ops = CORE_OPS | {"MERGE", "SCRIPT"}
     rule = ("histories with many next_id() calls interleaved with add() of ids ahead of and behind the allocator, "
-            "collections that free lower ids, clones (the clone continues with its own next_id calls), merge() and script "
+            "collections that free lower ids, clones (the clone continues with its own next_id calls), merge() (also one that "
+            "unified two vertices and left a removed slot behind: implementation-only oracle there) and script "
             "variables; oracle from the property text: every returned id is below the capacity, absent at that moment "
             "(implementation's own snapshot before the call) and different from every id returned earlier on the same graph "
             "or the graph it was cloned from; ids created inside merge()/script are checked to be absent before the call; "
